@@ -105,6 +105,7 @@ RxSearch(l, s) == LET c == l.c IN
 
 LitValue(r, n, lit) == IF lit.lk = "col" THEN Attr(r, n, lit.name)
                        ELSE IF lit.lk = "int" THEN IntV(lit.v)
+                       ELSE IF lit.lk = "dec" THEN [t |-> "dec", n |-> lit.v, d |-> lit.a]
                        ELSE IF lit.lk = "bool" THEN BoolV(lit.b)
                        ELSE IF lit.lk = "date" THEN [t |-> "span", a |-> lit.a, b |-> lit.z]
                        ELSE IF lit.lk = "rx" THEN [t |-> "rx", l |-> lit]
@@ -122,6 +123,8 @@ IntCmp(op, a, b) == CASE op \in {"eq", "eeq"} -> a = b [] op \in {"ne", "ene"} -
 Compare(op, x, y) ==
   IF x.t = "none" \/ y.t = "none" THEN "U"
   ELSE IF x.t = "int" /\ y.t = "int" /\ op \in {"eq", "eeq", "ne", "ene", "gt", "gte", "lt", "lte"} THEN B3(IntCmp(op, x.v, y.v))
+  \* an integer column against a decimal fraction n / d: numeric comparison (x ? n/d  iff  x*d ? n)
+  ELSE IF x.t = "int" /\ y.t = "dec" /\ op \in {"eq", "eeq", "ne", "ene", "gt", "gte", "lt", "lte"} THEN B3(IntCmp(op, x.v * y.d, y.n))
   ELSE IF x.t = "bool" /\ y.t = "bool" /\ op \in {"eq", "eeq", "ne", "ene"} THEN B3(IF op \in {"eq", "eeq"} THEN x.b = y.b ELSE x.b # y.b)
   ELSE IF x.t = "date" /\ y.t = "span" THEN
          (CASE op = "eq" -> B3(y.a <= x.v /\ x.v <= y.b) [] op = "ne" -> B3(~(y.a <= x.v /\ x.v <= y.b))
